@@ -7,6 +7,15 @@ import re as _re_mod
 _STD_RE = _re_mod.compile(r'(?<![A-Za-z0-9_])(?:(?:minicbor|minicbor_serde|minicbor_io)::alloc|core|alloc)::')   # `extern crate alloc` makes rustc print minicbor::alloc::..
 
 
+_LT_RE = _re_mod.compile(r"'(?!static\b)[A-Za-z_][A-Za-z0-9_]*(?!')")
+
+
+def canon(s):
+    """one spelling for lifetime names: `<'a, 'b>`, `<'_, 'b>` and `<'x, 'y>` denote the same item (names of lifetime parameters
+    are not part of an item's identity and change with every elision clean-up)"""
+    return _LT_RE.sub("'_", s) if isinstance(s, str) and "'" in s else s
+
+
 class Program:
     def __init__(self, paths):
         self.insts = {}      # key -> instance dict
@@ -30,6 +39,9 @@ class Program:
                 pat = _re.compile('|'.join('(?<![A-Za-z0-9_:])%s(?![A-Za-z0-9_])' % _re.escape(k) for k in sorted(ren, key=len, reverse=True)))
                 text = pat.sub(lambda mo: ren[mo.group(0)], text)
                 d = json.loads(text)
+            if _LT_RE.search(text):
+                text = _LT_RE.sub("'_", text)
+                d = json.loads(text)
             if _STD_RE.search(text):
                 # one spelling for std items in every configuration (no_std crates print core:: / alloc::, and rustc mixes both in std builds)
                 text = _STD_RE.sub('std::', text)
@@ -51,7 +63,7 @@ class Program:
                 self.coroutines[c['path']] = c
 
     def get(self, key):
-        return self.insts.get(key)
+        return self.insts.get(key) or self.insts.get(canon(key))
 
     def feature(self, name, crate=None):
         """is cargo feature `name` enabled in the (first / named) analysed crate"""
@@ -62,10 +74,11 @@ class Program:
 
     def find(self, path):
         """Instances whose def path equals `path` (there may be several substitutions)."""
-        return self.by_path.get(path, [])
+        return self.by_path.get(canon(path), [])
 
     def one(self, path):
         """The identity (depth 0/lowest depth) instance for a def path."""
+        path = canon(path)
         c = self.by_path.get(path)
         if not c:
             # no_std builds print std items under core:: / alloc::
